@@ -333,7 +333,10 @@ class C12(Scenario):
             pidx = [i for i, u in enumerate(units) if u["k"] == "P"]
             if len(pidx) > 4:
                 at = pidx[rng.randint(max(1, len(pidx) // 3), len(pidx) - 1)]
-                units.insert(at, {"k": "restart", "n": rng.randrange(1, len(nodes))})
+                u_ = {"k": "restart", "n": rng.randrange(1, len(nodes))}
+                if rng.random() < 0.5:
+                    u_["salt"] = rng.choice(SALTS)  # restarted under another hash seed
+                units.insert(at, u_)
         # second build in the same process
         if arm in ("warm", "shared-measure") or rng.random() < 0.3:
             units.append({"k": "again", "n": rng.randrange(len(nodes))})
@@ -358,7 +361,7 @@ class C12(Scenario):
                     tags.append(0)
             elif k == "restart":
                 if u["n"] < nn:
-                    for rop in (["sendall", "ck"], ["crash"], ["recvall", "ck"]):
+                    for rop in (["sendall", "ck"], ["crash", u.get("salt")], ["recvall", "ck"]):
                         steps.append([u["n"], rop])
                         uos.append(ui)
                         tags.append(0)
@@ -492,8 +495,9 @@ class C12(Scenario):
                     parts.add("probe:" + (op[2] if op[0] in ("obs", "call") else op[0]))
                 else:
                     parts.add("noise")
-        if any(u["k"] == "restart" and u.get("n") == n for u in plan["units"]):
-            parts.add("restart")
+        for u in plan["units"]:
+            if u["k"] == "restart" and u.get("n") == n:
+                parts.add("restart" if u.get("salt") in (None, nodes[n]["salt"] if n < len(nodes) else None) else "restart-other-salt")
         if viol["detail"].get("second_build"):
             parts.add("again")
         return "+".join(sorted(parts)) or "none"
@@ -543,6 +547,11 @@ class C12(Scenario):
                         q = dict(plan)
                         q["nodes"] = nodes[:i] + [dict(nodes[i], init=init[:j] + [[op[0], op[1], op[2], v]] + init[j + 1 :])] + nodes[i + 1 :]
                         yield q
+        for i, u in enumerate(units):
+            if u["k"] == "restart" and u.get("salt") is not None:
+                q = dict(plan)
+                q["units"] = units[:i] + [{k_: v_ for k_, v_ in u.items() if k_ != "salt"}] + units[i + 1 :]
+                yield q
         if phase == "pre":
             return
         # un-fault noise ops
